@@ -1,7 +1,8 @@
 From Coq Require Import Extraction ExtrOcamlBasic.
-From PV Require Import Lib.ExtractBase Model.Waiter Model.WaiterPool Model.SchedLeafConc Model.WaiterLeaf.
+From PV Require Import Lib.ExtractBase Model.Waiter Model.WaiterPool Model.SchedLeafConc Model.WaiterLeaf Model.WaiterProfile.
 Extraction Language OCaml.
 Extraction "extracted/C04_model.ml" xb_types wait is_slow_down decide run_inst return_lower wcurrent worig wfixed
   wstate_init spec_token_b spec_decision_b max_overdue profile_offsets configured_discard
   run_pool instance_discard schedules_built never_ahead_b
-  first_shots spec_first_b doat_progs flagfirst_progs.
+  first_shots spec_first_b doat_progs flagfirst_progs
+  profile_segments configured_offsets.
